@@ -299,6 +299,22 @@ func (r *Run) rtCaseM(v int, p *PK, thr int, model bool) {
 	if p.Gzip && !compress {
 		return // caller-set gzip flag: outside the valid domain (DESIGN.md), model comparison only
 	}
+	// the streaming entry point under segmentation: a cut at a random position and one inside the trailer / last bytes
+	if p1 != nil && len(frame) > 1 && len(frame) < 20000 {
+		entries := ""
+		if compress {
+			entries = " gzr:" + hexIn(stdCompress(p.Body)) + "=" + hexIn(p.Body) + "/E"
+		}
+		want := []string{pktOut(p1)}
+		tail := 24
+		if tail > len(frame)-1 {
+			tail = len(frame) - 1
+		}
+		c1 := 1 + r.rng.Intn(len(frame)-1)
+		c2 := len(frame) - 1 - r.rng.Intn(tail)
+		r.streamCase(v, p.Codec, frame, []int{c1}, 64, r.rng.Intn(64), entries, want, "rt-cut")
+		r.streamCase(v, p.Codec, frame, []int{c2}, 4096, r.rng.Intn(4096), entries, want, "rt-cut-tail")
+	}
 	for i, q := range []*protocol.Packet{p1, p2} {
 		name := []string{"one-shot", "streaming"}[i]
 		if q == nil {
